@@ -368,7 +368,8 @@ def mk_combine(fn, ver, same):
 
         def c_frame(kind, v, s):
             if kind == 'raise': return None
-            return z3.And(*[arr(s, 'other', f) == A0['other', f] for f in FIELDS])
+            q = z3.FreshConst(S, 'fq')       # pointwise: array equality of lambda terms leaves the solvers undecided
+            return z3.And(*[z3.ForAll([q], arr(s, 'other', f)[q] == A0['other', f][q]) for f in FIELDS])
 
         def c_raise(kind, v, s):
             if kind != 'raise': return None
